@@ -73,6 +73,17 @@ Print Assumptions C03_convert_safe_inert_xhtml.
 (* non-vacuity: the pipeline returns a result on a document with raw HTML, an entity and a link *)
 Example C03_convert_demo : exists o, ConvertModelC demo_cfg [60;98;62;32;38;97;109;112;59;32;91;120;93;40;47;117;41;10] = Ok o.
 Proof. eexists. vm_compute. reflexivity. Qed.
+(* the same for the Convert model WITHOUT the run-time check of the parser's output: the parser
+   model is proved to yield well-formed trees (props/C05.v, C05_parser_output_wf), so safe-mode
+   output is inert for every source for which the model returns *)
+Require Import GM.proofs.ParseInv GM.proofs.ParseFinal.
+Theorem C03_convert_model_safe_inert : forall c src o, unsafe c = false -> bytes_ok src -> ConvertModel c src = Ok o -> Inert o.
+Proof. exact ConvertModel_safe_inert_all. Qed.
+Print Assumptions C03_convert_model_safe_inert.
+Theorem C03_convert_model_safe_inert_xhtml : forall c src o, unsafe c = false -> xhtml c = true -> bytes_ok src ->
+  ConvertModel c src = Ok o -> InertX o.
+Proof. exact ConvertModel_safe_inert_xhtml_all. Qed.
+Print Assumptions C03_convert_model_safe_inert_xhtml.
 
 (* ---------------- Part 4: attribute blocks ----------------
    Every attribute name parser.ParseAttributes yields (model/Attr.v, compared with the public
